@@ -83,7 +83,7 @@ def _fixture_job(args):
 
 
 def run(ctx):
-    bases = ctx.pick(["hexflower", "brick33", "squares33", "lens5"], ["hexflower", "brick33", "squares33", "lens5", "hex33", "irregular", "hex43"])
+    bases = ctx.pick(["hexflower", "brick33", "squares33", "lens5"], ["hexflower", "brick33", "squares33", "lens5", "fan5", "hex33", "irregular", "hex43"])
     ks_cfg = ctx.pick("MC_Interfaces.cfg", "MC_Interfaces_thorough.cfg")
     big_cfg = "MC_Interfaces_k02.cfg"      # the 2^15 / 2^12 subset spaces of the two large bases: two sampling densities
     jobs, payloads = [], {}
